@@ -364,6 +364,52 @@ async def rig_case(case, r: R):
     for p in range(1, n):
         cc, pc = await rg.connect_le(0, p)
         conns[p] = (cc, pc)
+    # A controller may report several handles in one Number Of Completed Packets event, and
+    # may name a handle the host no longer (or never) knew. Half of the cases rewrite the
+    # controller's single-handle events accordingly before the host sees them.
+    nocp_mode = rng.choice(['plain', 'plain', 'stale-first', 'stale-last', 'merged'])
+    held = []
+
+    def rewrite_nocp(pkt):
+        if pkt[0] != 4 or pkt[1] != 0x13 or nocp_mode == 'plain':
+            return pkt
+        nh = pkt[3]
+        # (arrayed HCI parameters are interleaved: handle[0], count[0], handle[1], count[1], ...)
+        hs = [int.from_bytes(pkt[4 + 4 * i:6 + 4 * i], 'little') for i in range(nh)]
+        cs = [int.from_bytes(pkt[6 + 4 * i:8 + 4 * i], 'little') for i in range(nh)]
+        r.ev('rig_nocp_rewritten')
+        if nocp_mode == 'merged' and rng.random() < 0.5 and len(held) < 3:
+            # held back, reported together with the next one (or on its own a few turns later:
+            # a controller does not sit on a completion for ever)
+            held.append((hs, cs))
+            if len(held) == 1:
+                def release(n):
+                    if not held:
+                        return
+                    if n > 0:
+                        rg.loop.call_soon(release, n - 1)
+                        return
+                    hs2 = sum((h for h, _ in held), [])
+                    cs2 = sum((c for _, c in held), [])
+                    held.clear()
+                    body = bytes([len(hs2)]) + b''.join(h.to_bytes(2, 'little') + c.to_bytes(2, 'little') for h, c in zip(hs2, cs2))
+                    merged = bytes([4, 0x13, len(body)]) + body
+                    rg.log_hci(0, vrig.C2H, merged)
+                    rg.c2h[0].fifo.push(rg.c2h[0]._deliver, merged)
+                rg.loop.call_soon(release, 6)
+            return None
+        for ph, pc_ in held:
+            hs, cs = ph + hs, pc_ + cs
+        held.clear()
+        stale = (0x0EEE, rng.choice([0, 1]))
+        if nocp_mode == 'stale-first':
+            hs, cs = [stale[0]] + hs, [stale[1]] + cs
+        elif nocp_mode == 'stale-last':
+            hs, cs = hs + [stale[0]], cs + [stale[1]]
+        body = bytes([len(hs)]) + b''.join(h.to_bytes(2, 'little') + c.to_bytes(2, 'little') for h, c in zip(hs, cs))
+        return bytes([4, 0x13, len(body)]) + body
+
+    rg.c2h[0].filters.append(rewrite_nocp)
     CID = 0x0070
     received = {p: [] for p in range(1, n)}
     for p in range(1, n):
@@ -424,6 +470,11 @@ async def rig_case(case, r: R):
     if hog:
         rg.c2h[0].fifo.paused = False
     await rg.quiesce()
+    for _ in range(200):
+        if not held:
+            break
+        await asyncio.sleep(0)
+    await rg.quiesce()
     # --- ledger on controller 0 -------------------------------------------------
     outstanding: dict[int, int] = {}
     dead_handles: set[int] = set()
@@ -455,7 +506,8 @@ async def rig_case(case, r: R):
             for i in range(nh):
                 h = int.from_bytes(pkt[4 + 4 * i:6 + 4 * i], 'little')
                 c = int.from_bytes(pkt[6 + 4 * i:8 + 4 * i], 'little')
-                outstanding[h] = max(0, outstanding.get(h, 0) - c)
+                if h in outstanding:
+                    outstanding[h] = max(0, outstanding[h] - c)
         elif direction == vrig.C2H and pkt[0] == 4 and pkt[1] == 0x05:
             h = int.from_bytes(pkt[4:6], 'little') & 0xFFF
             outstanding.pop(h, None)
@@ -482,7 +534,7 @@ async def rig_case(case, r: R):
         r.sig('rig', n, tuple(bufs), tuple(lens), victim, count)
     r.sched.add(rg.schedule_signature)
     r.evals()
-    r.sample = {'kind': 'rig', 'devices': n, 'bufs': bufs, 'acl_len': lens, 'victim': victim,
+    r.sample = {'kind': 'rig', 'nocp': nocp_mode, 'devices': n, 'bufs': bufs, 'acl_len': lens, 'victim': victim,
                 'pdus': {p: len(m) for p, m in msgs.items()}, 'acl_packets': acl, 'peak_outstanding': peak}
 
 
